@@ -803,9 +803,10 @@ pub fn ladder(rng: &mut Rng, cx: Cx) -> Frag {
     };
     // d+u versions: u:X = or_i(X,0), W versions through a:
     let du = |x: Frag| Frag::OrI(bx(x), bx(Frag::False));
-    // two locks of the same kind and unit with different values, side by side
+    // two locks of the same kind and unit side by side: different values, the same value twice, and
+    // a value whose meaningless high bits make it look larger than it is
     let lock_pair = |rng: &mut Rng| -> (Frag, Frag) {
-        let vals: [(u32, u32); 4] = [(5, 10), (1, 144), ((1 << 22) | 2, (1 << 22) | 9), (3, 65_535)];
+        let vals: [(u32, u32); 8] = [(5, 10), (1, 144), ((1 << 22) | 2, (1 << 22) | 9), (3, 65_535), (10, 10), (10, 65_537), (144, 144), ((1 << 22) | 9, (1 << 22) | 9)];
         let (a, b) = *rng.pick(&vals);
         let (a, b) = if rng.coin() { (a, b) } else { (b, a) };
         match rng.below(3) {
